@@ -24,26 +24,31 @@ CLAIMS = {
         note='Assumed (probed natively every run): pytz localize/astimezone, datetime.replace/strptime/civil fields, "{:0Nd}".format, STIXdatetime.__new__; UTC offsets are whole '
              'seconds (sub-second offsets, which Python permits, are outside the contract). DigitStr theory and PyVC encoding are trusted, guarded by the native cross-check.',
         technique='contract-based deductive verification (PyVC + z3, DigitStr/LIA theory) with native replay; bounded native stand-in as cross-check'),
-    'C05': dict(category='proof', design_ref='DESIGN.md section 3 C05, Appendix A.3',
+    'C05': dict(category='other', design_ref='DESIGN.md section 3 C05, Appendix A.3, section 12',
         text='_fudge_modified is proved for all pairs of instants and both precision rules (the clock is an unconstrained integer); new_version is verified against a slice '
              'contract with callee contracts: precondition of _fudge_modified from the precision constraint computed on the path, modified handed to the constructor strictly '
              'later at serialization precision, RevokeError / UnmodifiablePropertyError conditions (loop invariant), constructor arguments = original overridden by the change '
-             'set minus None; revoke forwards exactly revoked=True; chain monotonicity by transitivity. Composition with the real constructors is bounded (clock substituted).',
+             'set minus None; unmodifiable names supplied as keyword arguments or custom_properties keys are refused; revoke forwards exactly revoked=True; chain monotonicity by '
+             'transitivity. Composition with the real constructors and class tables is bounded (clock substituted; 10 object kinds incl. types made by the CustomObject decorators): '
+             'claimed as "other", not "proof", because two seeded changes outside new_version (decorator property tables, class attribute aliasing) were invisible to the proved part.',
         note='Slice contract: the object is a map with 7 declared keys plus arbitrary others; class constructor, _check_versionable_object, deepcopy under assumed contracts; '
-             'datetime overflow at year 9999 excluded. The bounded part (8 object kinds x clock offsets x change sets x chains) is labelled bounded in the evidence.',
+             'datetime overflow at year 9999 excluded. The bounded part (10 object kinds x clock offsets x change sets x chains) is labelled bounded in the evidence.',
         technique='contract-based deductive verification (PyVC + z3) of the ordering core; bounded native composition with a substituted clock'),
-    'C14': dict(category='proof', design_ref='DESIGN.md section 3 C14, 2.13',
+    'C14': dict(category='other', design_ref='DESIGN.md section 3 C14, 2.13, section 12',
         text='Every call site in the tree of a function with a version/allow_custom/interoperability parameter is bound to the callee\'s real signature and checked against '
              'the parameter sorts, and callers must hand on their own version (finite-domain obligations); parse, dict_to_stix2, detect_spec_version, memory._add and '
-             'filesystem._check_object_from_file are symbolically executed against routing contracts with ghost "parsed-under" records. 14 entry points x dictionaries x versions are compared natively with a direct parse.',
+             'filesystem._check_object_from_file are symbolically executed against routing contracts with ghost "parsed-under" records. 17 entry points (dictionary, text and already-built object inputs) x dictionaries x versions are compared natively with a direct parse. '
+             'Claimed as "other": a change that takes parse() out of the modelled subset leaves only the bounded comparison (seed C14-4).',
         note='Sorts of actuals are derived from role-named parameters, literals and self.<role>; other actual expressions are listed as not decided (16 on the current tree). '
              'TAXII paths are covered by call-site obligations only. Constructors honour allow_custom/interoperability: assumed here, checked by C02/C04.',
         technique='call-site precondition checking against real signatures (AST + z3) and contract-based symbolic execution (PyVC); bounded native entry-point comparison'),
     'C17': dict(category='other', design_ref='DESIGN.md section 3 C17',
         text='Proved: detect_spec_version, dict_to_stix2 and parse cannot let KeyError/AttributeError/IndexError escape for ANY JSON value (uninterpreted JSON sort; every raw-input '
              'access is an obligation site; counterexamples are concretised to JSON and replayed). Bounded: fault enumeration over every parseable type x every slot to depth 3 x '
-             'wrong-kind values, whole-input junk, constructors of all classes; registries compared with a snapshot. The composition through _STIXBase.__init__ is only bounded, hence "other".',
-        note='Termination / RecursionError on deep nesting not decided. Constructors raising only Family errors is established by enumeration (bounded), not proof.',
+             'wrong-kind values (incl. integers beyond the double range), junk property names, whole-input junk, constructors of all classes, granular-marking selectors of every shape, '
+             '17 nesting sites at 8 depths up to the JSON decoder\'s own limit; registries compared with a snapshot. The raw-input prefix of _STIXBase.__init__ (custom_properties, extensions scan, '
+             'custom property naming) is proved as a region contract; property cleaning and cross-property validation behind it are only bounded, hence "other".',
+        note='Termination is not decided; RecursionError is checked by the bounded nesting family only. Constructors raising only Family errors is established by enumeration (bounded), not proof.',
         technique='contract-based deductive verification over a JSON sort (PyVC + z3) for the raw-input functions; exhaustive small-scope fault enumeration for the rest'),
     'C12': dict(category='other', design_ref='DESIGN.md section 3 C12, 2.13',
         text='Proved: Filter._check_property == documented semantics of all 8 operators; apply_common_filters yields exactly the objects matching every filter; _update_allow and '
@@ -71,7 +76,7 @@ CLAIMS = {
         technique='bounded exhaustive enumeration against the object itself (stand-in), with contract-proved core functions (PyVC + z3)'),
     'C02': dict(category='other', design_ref='DESIGN.md section 3 C02',
         text='Proved: language of every lexical regex == specification grammar (two inclusion queries each, concrete witness strings), _validate_type / IntegerProperty.clean iff '
-             'contracts, ten timestamp-order co-constraints, strict-mode refusal of custom content in List/Hashes/Reference cleaners, validators read no mutable module state. '
+             'contracts, ten timestamp-order co-constraints, the three inter-property helpers of _STIXBase (iff, nested loop invariants), strict-mode refusal of custom content in List/Hashes/Reference cleaners, validators read no mutable module state. '
              'Exhaustive table invariant (1382 property slots == frozen model). Bounded fault enumeration: (type, property, corruption kind) -> error or output accepted by an independent validator.',
         note='The frozen tables were bootstrapped from the tree after the fix commits (a regression oracle reviewed where the library was known to deviate); _STIXBase.__init__ composition is bounded only; pattern validity delegated to stix2patterns.',
         technique='regular-language equivalence and cleaner contracts by deductive verification (PyVC + z3 regex/LIA); exhaustive table comparison; bounded fault enumeration with an independent validator'),
